@@ -47,6 +47,29 @@ NAMES = ['A', 'AB', 'A1', 'A|r1', 'A|r2', 'ens|r10', 'B|r1', 'test', 'long_ensem
 DATA = gen.DATA_KINDS + ['mixedmag', 'zero-mean']
 
 
+EPS = 2.3e-16
+
+
+def loo_tol(n):
+    """(N mean - x_i) / (N - 1) from fluctuations + mean: a handful of roundings of numbers of the size of the samples"""
+    return 64 * EPS
+
+
+def boot_tol(n):
+    """a scalar product of N terms of the size of the samples: at most ~N roundings (worst case), plus those of the inputs"""
+    return (2 * n + 32) * EPS
+
+
+def var_rtol(n, sc, var, from_jackknife):
+    """relative accuracy of a sum of squares of differences: the differences x_i - mean lose sc / sigma digits, those of the
+    jackknife samples (spread sigma / (N - 1) around the mean) N times more"""
+    sigma = (max(var, 0.0) * n) ** 0.5
+    if sigma == 0.0:
+        return 1e-8
+    kappa = sc / sigma * (n if from_jackknife else 1)
+    return min(1e-8, 64 * EPS * (16 + kappa))
+
+
 def sample_scale(x, value=0.0):
     return max(max((abs(v) for v in x), default=0.0), abs(value), 1e-300)
 
@@ -78,7 +101,7 @@ class ExportJK(taps.Monitor):
             return
         ctx.close(res[0], value, 'export_jackknife:entry0-not-central-value', 'entry 0', rtol=0.0, atol=0.0)
         exp = R.jackknife(x, central=value)
-        ctx.close(res[1:], exp[1:], 'export_jackknife:not-leave-one-out-mean', 'call-level, x = r_value + deltas', rtol=1e-11, scale=sample_scale(x, value),
+        ctx.close(res[1:], exp[1:], 'export_jackknife:not-leave-one-out-mean', 'call-level, x = r_value + deltas', rtol=loo_tol(n), scale=sample_scale(x, value),
                   detail={'N': n, 'name': name})
         # the observable the caller holds is what it was before the export
         ctx.equal(chain_view(args[0]), token, 'export_jackknife:observable-modified-by-export', 'argument after the call')
@@ -123,7 +146,7 @@ class ExportBS(taps.Monitor):
         ctx.close(res[0], value, 'export_bootstrap:entry0-not-central-value', 'entry 0', rtol=0.0, atol=0.0)
         exp = R.bootstrap_means(x, table)
         mech = 'export_bootstrap:not-mean-over-resampled-configurations' if how == 'supplied-table' else 'export_bootstrap:seeded-table-differs-from-md5-name-seed'
-        ctx.close(res[1:], exp, mech, how, rtol=1e-11, scale=sample_scale(x, value), detail={'N': n, 'rows': len(table), 'name': name})
+        ctx.close(res[1:], exp, mech, how, rtol=boot_tol(n), scale=sample_scale(x, value), detail={'N': n, 'rows': len(table), 'name': name})
 
 
 class ImportJK(taps.Monitor):
@@ -158,9 +181,9 @@ class ImportJK(taps.Monitor):
         exp = [tot - (n - 1) * j for j in jacks[1:]]
         x = np.asarray(result.deltas[name], dtype=float) + result.r_values[name]
         sc = max(abs(v) for v in jacks)
-        ctx.close(x, exp, 'import_jackknife:samples', 'x_i = sum(J) - (N-1) J_i', rtol=1e-12 * n, scale=sc, atol=1e-300)
-        ctx.close(result.r_values[name], tot / n, 'import_jackknife:replica-mean', 'mean', rtol=1e-12 * n, scale=sc, atol=1e-300)
-        ctx.close(float(np.sum(result.deltas[name])), 0.0, 'import_jackknife:fluctuations-do-not-sum-to-zero', '', rtol=1e-12 * n * n, scale=sc, atol=1e-300)
+        ctx.close(x, exp, 'import_jackknife:samples', 'x_i = sum(J) - (N-1) J_i', rtol=2e-14 * n, scale=sc, atol=1e-300)
+        ctx.close(result.r_values[name], tot / n, 'import_jackknife:replica-mean', 'mean', rtol=2e-14 * n, scale=sc, atol=1e-300)
+        ctx.close(float(np.sum(result.deltas[name])), 0.0, 'import_jackknife:fluctuations-do-not-sum-to-zero', '', rtol=2e-14 * n * n, scale=sc, atol=1e-300)
 
 
 class ImportBS(taps.Monitor):
@@ -407,7 +430,7 @@ def case_jk(ctx, idx, rng):
     if not ok:
         return
     ctx.close(jk[0], exp[0], 'export_jackknife:entry0-not-central-value', 'mean of the samples', rtol=1e-14, scale=sc, atol=1e-300)
-    ctx.close(jk[1:], exp[1:], 'export_jackknife:not-leave-one-out-mean', 'table-level', rtol=1e-11, scale=sc, atol=1e-300,
+    ctx.close(jk[1:], exp[1:], 'export_jackknife:not-leave-one-out-mean', 'table-level', rtol=loo_tol(n), scale=sc, atol=1e-300,
               detail={'N': n, 'list': lkind, 'data': dkind})
     # jackknife variance of the exported samples = squared naive error
     o.gamma_method(S=0)
@@ -415,20 +438,22 @@ def case_jk(ctx, idx, rng):
     var_ref = R.naive_error_squared(x)
     noise = (1e-13 * sc) ** 2
     ctx.count('jackknife_variance_identities')
-    ctx.close(o.dvalue ** 2, var_exported, 'jackknife-variance-differs-from-squared-S0-error', 'exported samples vs gamma_method(S=0)', rtol=1e-8, atol=noise,
+    ctx.close(o.dvalue ** 2, var_ref, 'jackknife-variance-differs-from-squared-S0-error', 'gamma_method(S=0) vs sum (x-mean)^2 / N(N-1)', rtol=var_rtol(n, sc, var_ref, False), atol=noise,
               detail={'N': n, 'list': lkind, 'data': dkind})
-    ctx.close(var_exported, var_ref, 'jackknife-variance-differs-from-squared-S0-error', 'exported samples vs sum (x-mean)^2 / N(N-1)', rtol=1e-8, atol=noise,
+    ctx.close(o.dvalue ** 2, var_exported, 'jackknife-variance-differs-from-squared-S0-error', 'exported samples vs gamma_method(S=0)', rtol=var_rtol(n, sc, var_ref, True), atol=noise,
+              detail={'N': n, 'list': lkind, 'data': dkind})
+    ctx.close(var_exported, var_ref, 'jackknife-variance-differs-from-squared-S0-error', 'exported samples vs sum (x-mean)^2 / N(N-1)', rtol=var_rtol(n, sc, var_ref, True), atol=noise,
               detail={'N': n, 'list': lkind, 'data': dkind})
     # import with the configuration list (in the form it was given) and without
     jv = array_view(rng, jk)
     imp = PE.import_jackknife(jv, name, idl=[idl]) if idx % 2 else PE.import_jackknife(jv, name, [idl])
     ctx.cell('import_jk', lkind, lc)
-    compare_restored(ctx, imp, name, cfgs, x, exp[0], 'import_jackknife', 1e-12 * n, True)
+    compare_restored(ctx, imp, name, cfgs, x, exp[0], 'import_jackknife', 2e-14 * n, True)
     imp2 = PE.import_jackknife(jk, name)
-    compare_restored(ctx, imp2, name, list(range(1, n + 1)), x, exp[0], 'import_jackknife', 1e-12 * n, True)
-    ctx.close(imp.export_jackknife(), jk, 'import_jackknife:re-export-differs', 'export(import(export))', rtol=1e-12 * n, scale=sc, atol=1e-300)
+    compare_restored(ctx, imp2, name, list(range(1, n + 1)), x, exp[0], 'import_jackknife', 2e-14 * n, True)
+    ctx.close(imp.export_jackknife(), jk, 'import_jackknife:re-export-differs', 'export(import(export))', rtol=2e-14 * n, scale=sc, atol=1e-300)
     imp.gamma_method(S=0)
-    ctx.close(imp.dvalue ** 2, var_ref, 'import_jackknife:naive-error-not-restored', '', rtol=1e-7, atol=noise)
+    ctx.close(imp.dvalue ** 2, var_ref, 'import_jackknife:naive-error-not-restored', '', rtol=var_rtol(n, sc, var_ref, True), atol=noise)
     nontrivial(ctx, chain, 'jk', name, idx % 3)
     ctx.sample({'function': 'export/import_jackknife', 'name': name, 'N': n, 'list': lkind, 'data': dkind, 'cfgs_head': cfgs[:6], 'jack_head': [float(v) for v in jk[:4]],
                 'dvalue_S0': float(o.dvalue)})
@@ -453,10 +478,10 @@ def case_bs_table(ctx, idx, rng):
     if not ctx.require(np.shape(bs) == (k + 1,), 'export_bootstrap:shape', lambda: {'shape': np.shape(bs), 'rows': k}):
         return
     ctx.close(bs[0], R.mean(x), 'export_bootstrap:entry0-not-central-value', 'mean of the samples', rtol=1e-14, scale=sc, atol=1e-300)
-    ctx.close(bs[1:], R.bootstrap_means(x, t), 'export_bootstrap:not-mean-over-resampled-configurations', 'table-level ' + how, rtol=1e-11, scale=sc, atol=1e-300,
+    ctx.close(bs[1:], R.bootstrap_means(x, t), 'export_bootstrap:not-mean-over-resampled-configurations', 'table-level ' + how, rtol=boot_tol(n), scale=sc, atol=1e-300,
               detail={'N': n, 'rows': k, 'table': how, 'form': form})
     if how == 'identity-rows':
-        ctx.close(bs[1:], [R.mean(x)] * k, 'export_bootstrap:not-mean-over-resampled-configurations', 'identity resampling gives the mean', rtol=1e-11, scale=sc, atol=1e-300)
+        ctx.close(bs[1:], [R.mean(x)] * k, 'export_bootstrap:not-mean-over-resampled-configurations', 'identity resampling gives the mean', rtol=boot_tol(n), scale=sc, atol=1e-300)
     nontrivial(ctx, chain, 'bs_table', name, how, k)
     ctx.sample({'function': 'export_bootstrap(table)', 'name': name, 'N': n, 'rows': k, 'table': how, 'form': form, 'boot_head': [float(v) for v in bs[:4]]})
 
@@ -497,7 +522,7 @@ def case_bs_seed(ctx, idx, rng):
     t = R.default_table(name, k, n)
     if not ctx.require(np.shape(bs) == (k + 1,), 'export_bootstrap:shape', lambda: {'shape': np.shape(bs), 'samples': k}):
         return
-    ctx.close(bs[1:], R.bootstrap_means(x, t), 'export_bootstrap:seeded-table-differs-from-md5-name-seed', 'table-level', rtol=1e-11, scale=sc, atol=1e-300,
+    ctx.close(bs[1:], R.bootstrap_means(x, t), 'export_bootstrap:seeded-table-differs-from-md5-name-seed', 'table-level', rtol=boot_tol(n), scale=sc, atol=1e-300,
               detail={'name': name, 'N': n, 'samples': k})
     # repeatable
     bs2 = o.export_bootstrap(samples=k)
@@ -507,7 +532,7 @@ def case_bs_seed(ctx, idx, rng):
     o2, _, _, cfgs2, chain2, _, _ = make_obs(rng, n, name=name)
     x2 = [chain2[c] for c in cfgs2]
     bsb = o2.export_bootstrap(samples=k)
-    ctx.close(bsb[1:], R.bootstrap_means(x2, t), 'export_bootstrap:seeded-table-not-chain-consistent', 'second observable, same chain', rtol=1e-11, scale=sample_scale(x2), atol=1e-300,
+    ctx.close(bsb[1:], R.bootstrap_means(x2, t), 'export_bootstrap:seeded-table-not-chain-consistent', 'second observable, same chain', rtol=boot_tol(n), scale=sample_scale(x2), atol=1e-300,
               detail={'name': name, 'N': n, 'samples': k})
     if n <= 12 and k <= 17:
         # recover the count table actually used, observable-independently: indicator data e_j
@@ -815,7 +840,7 @@ def judge_biased_import(ctx, imp, name, jk, cfgs, what, vtol=0.0):
     dsc = max(max(abs(v) for v in exp), 1e-300)
     ctx.count('imports_with_entry0_different_from_the_sample_mean')
     ctx.close(imp.value, float(jk[0]), 'import_jackknife:value-not-entry0', what, rtol=0.0, atol=vtol * sc)
-    tol = 1e-12 * n * sc
+    tol = 4e-14 * n * sc
     ctx.close(np.asarray(imp.deltas[name], dtype=float), exp, 'import_jackknife:fluctuations-not-centred-on-the-mean-of-the-samples', what, rtol=0.0, atol=tol,
               detail={'entry0_minus_mean_of_samples': float(Fraction(float(jk[0])) - jb), 'fluctuation_scale': dsc, 'N': n})
     ctx.close(float(np.sum(imp.deltas[name])), 0.0, 'import_jackknife:fluctuations-do-not-sum-to-zero', what, rtol=0.0, atol=tol * n)
@@ -823,7 +848,7 @@ def judge_biased_import(ctx, imp, name, jk, cfgs, what, vtol=0.0):
     imp.gamma_method(S=0)
     var = R.jackknife_variance([float(v) for v in jk])
     ctx.count('jackknife_variance_identities')
-    ctx.close(imp.dvalue ** 2, var, 'jackknife-variance-differs-from-squared-S0-error', what + ' (entry 0 differs from the mean of the samples)', rtol=1e-8, atol=(1e-13 * sc) ** 2)
+    ctx.close(imp.dvalue ** 2, var, 'jackknife-variance-differs-from-squared-S0-error', what + ' (entry 0 differs from the mean of the samples)', rtol=var_rtol(n, sc, var, True), atol=(1e-13 * sc) ** 2)
 
 
 def judge_roundtrip_of(ctx, o, name, what):
@@ -836,12 +861,13 @@ def judge_roundtrip_of(ctx, o, name, what):
     sc = max(float(np.max(np.abs(jk))), 1e-300)
     n = len(cf)
     ctx.close(back.value, o.value, 'import_jackknife:value', what, rtol=0.0, atol=0.0)
-    ctx.close(np.asarray(back.deltas[name], dtype=float), d0, 'import_jackknife:fluctuations', what, rtol=0.0, atol=1e-12 * n * sc)
+    ctx.close(np.asarray(back.deltas[name], dtype=float), d0, 'import_jackknife:fluctuations', what, rtol=0.0, atol=4e-14 * n * sc)
     ctx.equal([int(i) for i in back.idl[name]], cf, 'import_jackknife:configuration-list', what)
     back.gamma_method(S=0)
     o.gamma_method(S=0)
-    ctx.close(back.dvalue ** 2, o.dvalue ** 2, 'import_jackknife:naive-error-not-restored', what, rtol=1e-7, atol=(1e-13 * sc) ** 2)
-    ctx.close(back.dvalue ** 2, R.jackknife_variance([float(v) for v in jk]), 'jackknife-variance-differs-from-squared-S0-error', what, rtol=1e-8, atol=(1e-13 * sc) ** 2)
+    vj = R.jackknife_variance([float(v) for v in jk])
+    ctx.close(back.dvalue ** 2, o.dvalue ** 2, 'import_jackknife:naive-error-not-restored', what, rtol=var_rtol(n, sc, vj, True), atol=(1e-13 * sc) ** 2)
+    ctx.close(back.dvalue ** 2, vj, 'jackknife-variance-differs-from-squared-S0-error', what, rtol=var_rtol(n, sc, vj, True), atol=(1e-13 * sc) ** 2)
     return back
 
 
